@@ -3,4 +3,4 @@ From Coq Require Import ExtrOcamlBasic.
 From ZV Require Import Part.Consts Part.Model Part.NsMeta Part.NsName.
 Extraction Language OCaml.
 Extraction "model.ml" Z.of_N N.of_nat Nat.add hashed_key part part_of extract_namespace route_key group_keys group_kvs
-  same_namespace del_keys exists_keys merged_del merged_exists pstore plset_reply plset_get apply_sets kv_get ns_step ns_init ns_route ns_route_all ns_hosting mget_reply merged_exists_lim merged_del_lim max_batch_num ns_desp.
+  same_namespace del_keys exists_keys merged_del merged_exists pstore plset_reply plset_get apply_sets kv_get ns_step ns_init ns_route ns_route_all ns_mget_route ns_hosting mget_reply merged_exists_lim merged_del_lim max_batch_num ns_desp.
